@@ -33,9 +33,29 @@ def count_calls(src: str, mode: str = "exec", variant: str = "shipped", verbose:
             Counting.calls += 1
             return super().reset(index)
 
+    class CountingList(list):
+        """the token array: every element read counts (a slice costs its length) - work that bypasses getnext/peek/reset"""
+
+        reads = 0
+
+        def __getitem__(self, k):
+            r = list.__getitem__(self, k)
+            CountingList.reads += len(r) if isinstance(k, slice) else 1
+            return CountingList(r) if isinstance(k, slice) else r
+
+        def __iter__(self):
+            CountingList.reads += len(self)
+            return list.__iter__(self)
+
+        def __reversed__(self):
+            CountingList.reads += len(self)
+            return list.__reversed__(self)
+
     Counting.calls = 0
+    CountingList.reads = 0
     cls = impl.parser_cls(variant)
     tz = Counting(generate_tokens(io.StringIO(src).readline))
+    tz._tokens = CountingList(tz._tokens)
     p = cls(tz, verbose=verbose)
     outcome = "tree"
     try:
@@ -49,7 +69,7 @@ def count_calls(src: str, mode: str = "exec", variant: str = "shipped", verbose:
         outcome = "tokerr"
     except RecursionError:
         return {"k": "recursion"}
-    return {"k": outcome, "calls": Counting.calls, "ntok": len(tz._tokens)}
+    return {"k": outcome, "calls": Counting.calls + CountingList.reads, "tokenizer_calls": Counting.calls, "token_array_reads": CountingList.reads, "ntok": len(tz._tokens)}
 
 
 FAMILIES = {
@@ -106,16 +126,23 @@ FAMILIES = {
     "invalid-dict-literal": lambda n: "x = {" + ", ".join(f"{i}: {i}" for i in range(n)) + " 3}\n",
     "invalid-subproc-mismatch": lambda n: "x = " + "$(echo " * n + "$(echo hi]" + ")" * n + "\n",
     "invalid-subproc-mismatch-mixed": lambda n: "x = " + "".join(("$(a ", "![b ", "!(c ", "$[d ")[i % 4] for i in range(n)) + "$(e }" + "".join((")", "]", ")", "]")[i % 4] for i in reversed(range(n))) + "\n",
+    "long-statement-sequence": lambda n: "".join(f"v{i} = f(a{i}, b=[c, {i}]) + d.e[{i}]\n" for i in range(n)),
+    "long-function-body": lambda n: "def f(a, b):\n" + "".join(f"    r{i} = a.m{i}(b, k={i}) or [x for x in b]\n" for i in range(n)) + "    return r0\n",
+    "invalid-subproc-nested-groups": lambda n: "x = $(echo " + "(" * n + "]" + ")" * n + ")\n",
+    "invalid-subproc-nested-groups-macro": lambda n: "$(echo! " + "(" * n + " ] " + ")" * n + ")\n",
+    "subproc-nested-groups": lambda n: "x = $(echo " + "(" * n + "a" + ")" * n + ")\n",
     "invalid-subproc-unclosed": lambda n: "x = " + "$(echo " * n + "hi\n",
     "invalid-subproc": lambda n: "x = " + "$(echo " * n + "hi" + ")" * n + " = = 3\n",
 }
-DEEP = {"nested-sequence-patterns", "nested-group-patterns", "nested-class-patterns", "nested-mapping-patterns", "invalid-nested-sequence-patterns", "nested-parens", "nested-lists", "nested-calls", "nested-subscripts", "nested-dicts", "nested-lambdas", "nested-comprehensions", "nested-ifexp", "nested-subprocs", "nested-blocks", "invalid-unclosed-parens", "invalid-nested-parens-junk", "invalid-nested-blocks", "invalid-nested-calls", "invalid-subproc", "invalid-subproc-mismatch", "invalid-subproc-mismatch-mixed", "invalid-subproc-unclosed"}
+DEEP = {"nested-sequence-patterns", "nested-group-patterns", "nested-class-patterns", "nested-mapping-patterns", "invalid-nested-sequence-patterns", "nested-parens", "nested-lists", "nested-calls", "nested-subscripts", "nested-dicts", "nested-lambdas", "nested-comprehensions", "nested-ifexp", "nested-subprocs", "nested-blocks", "invalid-unclosed-parens", "invalid-nested-parens-junk", "invalid-nested-blocks", "invalid-nested-calls", "invalid-subproc", "invalid-subproc-mismatch", "invalid-subproc-mismatch-mixed", "invalid-subproc-unclosed", "invalid-subproc-nested-groups", "invalid-subproc-nested-groups-macro", "subproc-nested-groups"}
 KNOWN = {
     "nested-pattern-sequence": "KF-C18-nested-sequence-patterns",
 }
 
 
 def sizes_for(name, tier):
+    if name.startswith("long-"):
+        return [150, 300, 600] if tier == "quick" else [150, 300, 600, 1200, 2400]
     if name.endswith("+verbose"):
         name = name[: -len("+verbose")]
     if name.startswith("invalid-subproc-mismatch"):
